@@ -81,7 +81,11 @@ ARG_POOL = ['()', '1', '-1', '0', '1.5', '1e0', 'xs:float(1)', '"a"', '""', '"1"
             'xs:hexBinary("0A")', 'xs:base64Binary("AA==")', 'xs:gYear("2000")', '(1, 2)', '("a", 1)', '/r', '/r/a', '/r/a/@n',
             '/r/a[1]/text()', '/', '//comment()', '//processing-instruction()', 'abs#1', 'function($x) { $x }', 'function($x, $y) { $x }',
             'map{"a": 1}', 'map{}', '[1, 2]', '[]', 'xs:double("NaN")', 'xs:double("INF")', '99999999999999999999', '"http://[bad"',
-            '"[a-"', '"\\"', 'xs:NCName("n")', 'xs:language("en")', 'xs:integer("3")', 'xs:short(5)']
+            '"[a-"', '"\\"', 'xs:NCName("n")', 'xs:language("en")', 'xs:integer("3")', 'xs:short(5)',
+            # namespace-agnostic node operands (the lxml document has a default namespace)
+            '/*', '.', '/*/*[2]', '/*/*[2]/@*', '//*:b',
+            # an integer beyond the range of xs:double, a negative fraction
+            '1' + '0' * 400, '-0.5']
 
 
 def tokens_of(s):
@@ -253,6 +257,9 @@ def domain_matrix():
 
 # ------------------------------------------------------------------ execution
 _ROOT = None
+_LROOT = None
+LDOC = ('<!--pre--><r xmlns="urn:d" xmlns:p="urn:p"><a n="1">x</a><a n="2">y<b xmlns=""/>t</a><c>3</c>'
+        '<p:d xml:lang="en">4.5</p:d><!--k--><?pi v?></r><?post x?>')
 
 
 def contexts():
@@ -262,8 +269,16 @@ def contexts():
         parser.feed(DOC)
         _ROOT = parser.close()
     root = _ROOT
+    global _LROOT
+    if _LROOT is None:
+        from lxml import etree as LE
+        # lxml: a default namespace next to a prefixed one (nsmap has the key None), comments and PIs around the root
+        _LROOT = LE.fromstring(LDOC.encode()).getroottree()
+    lroot = _LROOT
     variables = {'i': 2, 's': 'abc', 'q': [1, 2, 3], 'x': 1, 'y': 'y'}
     return [
+        ('lxml-document-root', lambda: XPathContext(lroot, namespaces=NS, variables=dict(variables))),
+        ('lxml-inner-item', lambda: XPathContext(lroot, namespaces=NS, item=lroot.getroot()[1], variables=dict(variables))),
         ('item-only', lambda: XPathContext(item=1, variables=dict(variables))),
         ('element-root', lambda: XPathContext(root, namespaces=NS, variables=dict(variables))),
         ('document-root', lambda: XPathContext(ET.ElementTree(root), namespaces=NS, variables=dict(variables))),
@@ -442,6 +457,14 @@ def run(h):
             for i, ch in enumerate(src):
                 if ch == '$':
                     corpus.append((src[:i] + src[i + 1:], 'mutation'))
+    if h.shard == 0 and h.tier != 'thorough':
+        # (the thorough tier runs the whole call matrix) every one- and two-argument function over the
+        # namespace-agnostic node operands, which select nodes in both the ElementTree and the lxml document
+        node_ops = [i for i, a in enumerate(ARG_POOL) if a in ('/*', '.', '/*/*[2]', '/*/*[2]/@*', '//*:b', '-0.5') or len(a) > 300]
+        for name, arity in signatures('3.1'):
+            if arity in (1, 2):
+                for pi in node_ops:
+                    corpus.append((render_call((name, arity, 0, pi, 0)), 'node-operand-call'))
     dm = domain_matrix()
     for e in (dm[h.shard::h.nshards] if h.nshards > 1 else dm):
         corpus.append((e, 'domain-call'))
